@@ -16,7 +16,7 @@ pub fn def() -> PropDef {
         run_unit,
         replay,
         required_probes: &["Div_Normalize", "Div_EarlyExact", "Div_ExactInLoop", "Div_Inexact", "RoundingTerm"],
-        rule: "exhaustive small scope: every quotient of na*10^-sa by nb*10^-sb with |na| <= 200, 1 <= |nb| <= 60, scales 0..1; then seeded pairs (a, b != 0) of 1..2000 digits, any scales and signs: divisors 2^i 5^j with terminating quotients of 1..100+ digits (exactly 99/100/101), quotients with 9..9 / 0..0 / 5 runs straddling digit 100, |a| << |b|, |a| >> |b| (integer part > 100 digits), equal unscaled integers with different scales, unit divisors 1.000; each pair through the 4 ownership forms (identical results required) judged by exact integer inequalities (exact if the true quotient has <= 100 digits, otherwise >= 100 digits, within half an ulp, ties away from zero); primitive forms for all 10 integer types and f32/f64 (both orders, by-reference forms, /=) compared with the same division on the converted decimals, +-2 exact half; the zero-divisor matrix (every integer-typed and decimal-typed divisor form, zero and non-zero numerators, all /= forms) must panic. distinct = distinct case tuples; non-trivial = true quotient does not terminate within 100 digits (rounding decides the last digit)",
+        rule: "exhaustive small scope: every quotient of na*10^-sa by nb*10^-sb with |na| <= 200, 1 <= |nb| <= 60, scales 0..1; then seeded pairs (a, b != 0) of 1..2000 digits, any scales and signs: divisors 2^i 5^j with terminating quotients of 1..100+ digits (exactly 99/100/101), quotients with 9..9 / 0..0 / 5 runs straddling digit 100, |a| << |b|, |a| >> |b| (integer part > 100 digits), equal unscaled integers with different scales, unit divisors 1.000; constructed boundary quotients n = t*d + rem (t = P leading digits followed by 1..40 further digits 49..9 / 50..0 / 99..9 / 00..0 / random, rem in {0, 1, d/2 - 1, d/2, d/2 + 1, d - 1, random}, numerator much longer than the divisor or scales shifted); each pair through the 4 ownership forms (identical results required) judged by exact integer inequalities (exact if the true quotient has <= 100 digits, otherwise >= 100 digits, within half an ulp, ties away from zero); primitive forms for all 10 integer types and f32/f64 (both orders, by-reference forms, /=) compared with the same division on the converted decimals, +-2 exact half; the zero-divisor matrix (every integer-typed and decimal-typed divisor form, zero and non-zero numerators, all /= forms) must panic. distinct = distinct case tuples; non-trivial = true quotient does not terminate within 100 digits (rounding decides the last digit)",
     }
 }
 
@@ -27,6 +27,7 @@ fn plan(tier: Tier) -> Vec<Unit> {
             v.extend(crate::util::split_budget("small", 401, 10));
             v.extend(crate::util::split_budget("prims", 12_000, 300));
             v.extend(crate::util::split_budget("zero", 1_600, 100));
+            v.extend(crate::util::split_budget("boundary", 40_000, 1_000));
             v
         }
         Tier::Thorough => {
@@ -34,6 +35,7 @@ fn plan(tier: Tier) -> Vec<Unit> {
             v.extend(crate::util::split_budget("small", 401, 5));
             v.extend(crate::util::split_budget("prims", 1_000_000, 2_000));
             v.extend(crate::util::split_budget("zero", 60_000, 500));
+            v.extend(crate::util::split_budget("boundary", 3_000_000, 5_000));
             v
         }
         Tier::Miri => {
@@ -348,6 +350,46 @@ macro_rules! zero_float_forms {
 
 fn run_unit(unit: &Unit, r: &mut Rng, ctx: &mut Ctx) {
     match unit.kind {
+        "boundary" => {
+            // quotients built digit by digit around the rounding position: n = t*d + rem with t = P leading digits
+            // followed by k further integer digits (49..9, 50..0, 99..9, 00..0, random) and a remainder 0, 1, just below
+            // / at / just above d/2, d-1: results that sit on, or a hair beside, a rounding boundary, reached through a
+            // numerator much longer than the divisor (one long division step) or through shifted scales
+            let p = default_precision() as usize;
+            for _ in 0..unit.count {
+                let lead = match r.below(4) { 0 => "9".repeat(p), 1 => format!("1{}", "0".repeat(p - 1)), _ => gen::digit_string(r, p) };
+                let k = match r.below(3) { 0 => 1, 1 => 1 + r.below(4) as usize, _ => 1 + r.below(40) as usize };
+                let tail = match r.below(7) {
+                    0 => format!("4{}", "9".repeat(k - 1)),
+                    1 => format!("5{}", "0".repeat(k - 1)),
+                    2 => "9".repeat(k),
+                    3 => "0".repeat(k),
+                    4 => format!("{}{}", if r.bool() { "49" } else { "50" }, gen::digit_string(r, k)),
+                    5 => format!("4{}8", "9".repeat(k - 1)),
+                    _ => gen::digit_string(r, k),
+                };
+                let t: BigInt = format!("{}{}", lead, tail).parse().unwrap();
+                let dl = match r.below(3) { 0 => 1, 1 => 1 + r.below(3) as usize, _ => 1 + r.below(25) as usize };
+                let d: BigInt = match r.below(5) { 0 => BigInt::from(3), 1 => BigInt::from(7), _ => gen::digit_string(r, dl).parse().unwrap() };
+                let half: BigInt = &d / BigInt::from(2);
+                let rem = match r.below(8) {
+                    0 => BigInt::zero(),
+                    1 => BigInt::one(),
+                    2 => &d - 1,
+                    3 => half.clone(),
+                    4 => &half + 1,
+                    5 => if half.is_zero() { BigInt::zero() } else { &half - 1 },
+                    _ => { let x: BigInt = gen::digit_string(r, dl).parse().unwrap(); x % &d }
+                };
+                let rem = if rem >= d { BigInt::zero() } else { rem };
+                let n = &t * &d + rem;
+                let (sa, sb) = match r.below(3) { 0 => (0, 0), 1 => (r.range(-40, 160), r.range(-40, 40)), _ => (r.range(-5, 5), 0) };
+                let a = Dec::new(if r.bool() { -n } else { n }, sa);
+                let b = Dec::new(if r.chance(1, 3) { -d } else { d }, sb);
+                let case = Case::new("pair").push(a.tok()).push(b.tok());
+                check_case(&case, ctx);
+            }
+        }
         "pairs" => {
             for i in 0..unit.count {
                 let (a, b) = gen_pair(r, unit.start + i);
